@@ -32,58 +32,66 @@ theorem go_cons (fuel off b : Nat) (rest : List Nat) :
           ((b :: rest).drop (if (Utf8.decodeRune (b :: rest)).2 = 0 then 1 else (Utf8.decodeRune (b :: rest)).2)) := by
   rw [Utf8.rangeDecode.go]
 
-theorem unicode_fun_roundtrip_aux : ∀ (fuel : Nat) (s : Bytes) (off : Nat), s.length ≤ fuel →
-    (Utf8.rangeDecode.go fuel off s).all Utf8.okStep = true →
-    ∃ out, unicodeFormatAux fuel s = some out ∧ parseFun unicodeDec out = s
-  | 0, [], _, _, _ => ⟨[], rfl, parseFun_nil _⟩
-  | 0, _ :: _, _, h, _ => by simp at h
-  | fuel + 1, [], _, _, _ => ⟨[], rfl, parseFun_nil _⟩
-  | fuel + 1, b :: rest, off, hlen, hall => by
-    rw [go_cons, List.all_cons, Bool.and_eq_true] at hall
-    obtain ⟨hok, hall⟩ := hall
-    rcases Utf8.decodeRune_cases b rest with herr | hdec
-    · rw [herr] at hok; simp [Utf8.okStep] at hok
-    · rcases hdr : Utf8.decodeRune (b :: rest) with ⟨c, size⟩
-      rw [hdr] at hdec hall
-      simp only [] at hdec hall
-      obtain ⟨⟨m, hm, hmax, hns⟩, hs1, hsl, hs4, henc, hhi⟩ := hdec
-      have hsz : (if size = 0 then 1 else size) = size := by
-        have : size ≠ 0 := by omega
-        simp [this]
-      rw [hsz] at hall
-      obtain ⟨r, hr, hpr⟩ := unicode_fun_roundtrip_aux fuel ((b :: rest).drop size) (off + size)
-        (by simp only [List.length_drop, List.length_cons] at hlen ⊢; omega) hall
-      have hsplit : (b :: rest).take size ++ (b :: rest).drop size = b :: rest := List.take_append_drop _ _
-      by_cases hb : b < 0x80
-      · -- ASCII fast path
-        have hda := Utf8.decodeRune_ascii rest hb
-        rw [hdr] at hda
-        have hsize : size = 1 := by simp only [Prod.mk.injEq] at hda; exact hda.2
-        subst hsize
-        obtain ⟨X, hX, hXl, hXp⟩ := escU_parse (m := b) (by omega)
-        refine ⟨92 :: 85 :: X ++ r, ?_, ?_⟩
-        · simp only [List.drop_succ_cons, List.drop_zero] at hr
-          simp [unicodeFormatAux, hb, hX, hr]
-        · rw [unicode_step hXl hXp (by omega), hpr, Utf8.encodeRune_nat1 hb]
-          simp
-      · have hm80 : 0x80 ≤ m := by
-          have := hhi b (by simp) (by omega)
-          omega
-        by_cases hce : c = Utf8.runeError
-        · refine ⟨92 :: 85 :: lit0000FFFD ++ r, ?_, ?_⟩
-          · simp [unicodeFormatAux, hb, hdr, hce, hr]
-          · rw [unicode_step (by decide) parse_lit0000FFFD (by omega), hpr]
-            have : ((0xFFFD : Nat) : Int) = c := by rw [hce]; rfl
-            rw [this, henc, hsplit]
-        · obtain ⟨X, hX, hXl, hXp⟩ := escU_parse (m := m) hmax
+/-- For every input: `UnicodeParse ∘ UnicodeFormat` re-encodes the runes of the range loop
+(each invalid byte becomes U+FFFD). -/
+theorem unicode_fun_reencode_aux : ∀ (fuel : Nat) (s : Bytes) (off : Nat), s.length ≤ fuel →
+    ∃ out, unicodeFormatAux fuel s = some out ∧
+      parseFun unicodeDec out = Utf8.reencode (Utf8.rangeDecode.go fuel off s)
+  | 0, [], _, _ => ⟨[], rfl, by simp [parseFun_nil, Utf8.rangeDecode.go, Utf8.reencode]⟩
+  | 0, _ :: _, _, h => by simp at h
+  | fuel + 1, [], _, _ => ⟨[], rfl, by simp [parseFun_nil, Utf8.rangeDecode.go, Utf8.reencode]⟩
+  | fuel + 1, b :: rest, off, hlen => by
+    rw [go_cons]
+    rcases hdr : Utf8.decodeRune (b :: rest) with ⟨c, size⟩
+    have hcases := Utf8.decodeRune_cases b rest
+    rw [hdr] at hcases
+    simp only [] at hcases ⊢
+    have hs1 : 1 ≤ size := by
+      rcases hcases with h | h
+      · simp only [Prod.mk.injEq] at h; omega
+      · exact h.sz1
+    have hsz : (if size = 0 then 1 else size) = size := by
+      have : size ≠ 0 := by omega
+      simp [this]
+    rw [hsz]
+    obtain ⟨r, hr, hpr⟩ := unicode_fun_reencode_aux fuel ((b :: rest).drop size) (off + size)
+      (by simp only [List.length_drop, List.length_cons] at hlen ⊢; omega)
+    simp only [Utf8.reencode, List.flatMap_cons]
+    simp only [Utf8.reencode] at hpr
+    rw [← hpr]
+    by_cases hb : b < 0x80
+    · have hda := Utf8.decodeRune_ascii rest hb
+      rw [hdr] at hda
+      simp only [Prod.mk.injEq] at hda
+      obtain ⟨rfl, rfl⟩ := hda
+      obtain ⟨X, hX, hXl, hXp⟩ := escU_parse (m := b) (by omega)
+      refine ⟨92 :: 85 :: X ++ r, ?_, ?_⟩
+      · simp only [List.drop_succ_cons, List.drop_zero] at hr
+        simp [unicodeFormatAux, hb, hX, hr]
+      · rw [unicode_step hXl hXp (by omega)]
+    · by_cases hce : c = Utf8.runeError
+      · refine ⟨92 :: 85 :: lit0000FFFD ++ r, ?_, ?_⟩
+        · simp [unicodeFormatAux, hb, hdr, hce, hr]
+        · rw [unicode_step (by decide) parse_lit0000FFFD (by omega)]
+          have : ((0xFFFD : Nat) : Int) = c := by rw [hce]; rfl
+          rw [this]
+      · rcases hcases with herr | hdec
+        · simp only [Prod.mk.injEq] at herr; exact absurd herr.1 hce
+        · obtain ⟨⟨m, hm, hmax, hns⟩, -, -, -, -, -⟩ := hdec
+          obtain ⟨X, hX, hXl, hXp⟩ := escU_parse (m := m) hmax
           refine ⟨92 :: 85 :: X ++ r, ?_, ?_⟩
           · have : c.toNat = m := by rw [hm]; simp
             simp [unicodeFormatAux, hb, hdr, hce, this, hX, hr]
-          · rw [unicode_step hXl hXp hmax, hpr, ← hm, henc, hsplit]
+          · rw [unicode_step hXl hXp hmax, ← hm]
+
+theorem unicode_fun_reencode (s : Bytes) :
+    ∃ out, unicodeFormat s = some out ∧ parseFun unicodeDec out = Utf8.encode (Utf8.runes s) := by
+  rw [Utf8.encode_runes]
+  exact unicode_fun_reencode_aux s.length s 0 (Nat.le_refl _)
 
 theorem unicode_fun_roundtrip (s : Bytes) (hv : Utf8.valid s = true) :
     ∃ out, unicodeFormat s = some out ∧ parseFun unicodeDec out = s := by
-  rw [Utf8.valid_eq] at hv
-  exact unicode_fun_roundtrip_aux s.length s 0 (Nat.le_refl _) hv
+  obtain ⟨out, h1, h2⟩ := unicode_fun_reencode s
+  exact ⟨out, h1, by rw [h2, Utf8.encode_runes_valid s hv]⟩
 
 end Golib.C07
